@@ -16,6 +16,7 @@
 #   limitations under the License.
 #
 import math
+import re
 from fractions import Fraction
 from typing import Any, Dict, List, Optional, Sequence, Union, cast
 
@@ -930,7 +931,9 @@ class Simplifier(pysmt.walkers.DagWalker):
         s, i = args
         if s.is_string_constant() and i.is_int_constant():
             i_value = cast(int, i.constant_value())
-            res = cast(str, s.constant_value())[i_value:i_value + 1]
+            s_value = cast(str, s.constant_value())
+            # SMT-LIB: the empty string when the index is out of range
+            res = s_value[i_value] if 0 <= i_value < len(s_value) else ""
             return self.manager.String(res)
         return self.manager.StrCharAt(s, i)
 
@@ -944,10 +947,13 @@ class Simplifier(pysmt.walkers.DagWalker):
     def walk_str_indexof(self, formula: FNode, args: List[FNode], **kwargs) -> FNode:
         s, t, i = args
         if s.is_string_constant() and t.is_string_constant() and i.is_int_constant():
-            idx = cast(str, s.constant_value()).find(
-                cast(str, t.constant_value()),
-                cast(int, i.constant_value()),
-            )
+            s_value = cast(str, s.constant_value())
+            i_value = cast(int, i.constant_value())
+            # SMT-LIB: -1 when the start index is outside [0, |s|]
+            # (Python would count a negative index from the end)
+            if i_value < 0 or i_value > len(s_value):
+                return self.manager.Int(-1)
+            idx = s_value.find(cast(str, t.constant_value()), i_value)
             # idx = -1, if t is not found
             return self.manager.Int(idx)
         return self.manager.StrIndexOf(s, t, i)
@@ -965,8 +971,14 @@ class Simplifier(pysmt.walkers.DagWalker):
         s, i, j = args
         if s.is_string_constant() and i.is_int_constant() and j.is_int_constant():
             start_ = cast(int, i.constant_value())
-            end_ = cast(int, i.constant_value()) + cast(int, j.constant_value())
-            res = cast(str, s.constant_value())[start_:end_]
+            len_ = cast(int, j.constant_value())
+            s_value = cast(str, s.constant_value())
+            # SMT-LIB: the empty string when the start is out of range or the
+            # length is not positive (Python slices would wrap around)
+            if start_ < 0 or start_ >= len(s_value) or len_ <= 0:
+                res = ""
+            else:
+                res = s_value[start_:start_ + len_]
             return self.manager.String(res)
         return self.manager.StrSubstr(s, i, j)
 
@@ -985,10 +997,11 @@ class Simplifier(pysmt.walkers.DagWalker):
     def walk_str_to_int(self, formula: FNode, args: List[FNode], **kwargs) -> FNode:
         s = args[0]
         if s.is_string_constant():
-            try:
+            # SMT-LIB: only non-empty strings of the digits 0-9 denote a number
+            # (int() would also accept signs, blanks, underscores, other scripts)
+            if re.fullmatch("[0-9]+", cast(str, s.constant_value())):
                 return self.manager.Int(int(s.constant_value()))
-            except ValueError:
-                return self.manager.Int(-1)
+            return self.manager.Int(-1)
         return self.manager.StrToInt(s)
 
     def walk_int_to_str(self, formula: FNode, args: List[FNode], **kwargs) -> FNode:
